@@ -103,4 +103,15 @@ theorem route_local (h : Storage) (key : String) (wf : WFStorage h)
     have b : (DataCategoryRuntime == DataCategorySharedPersistent) = false := by decide
     simp [route, hcat, a, b, hc]
 
+
+/-- Only pure shared data hands cache errors to the caller, and pure shared data is never persisted. -/
+theorem route_passErr (h : Storage) (key : String) : (route h key).pe = true → (route h key).passErr = false := by
+  simp only [route]
+  intro hpe
+  by_cases h1 : Storage.getCategory h key = DataCategoryShared
+  · have a : (DataCategoryShared == DataCategoryPersistent) = false := by decide
+    have b : (DataCategoryShared == DataCategorySharedPersistent) = false := by decide
+    simp [h1, a, b] at hpe
+  · simpa using h1
+
 end Tunnox.C14
